@@ -198,7 +198,9 @@ class World:
         idx = list(step["indices"])
         try:
             with silenced():
-                r = o.real[idx if len(idx) > 1 else idx[0]] if step.get("scalar") else o.real[idx]
+                form = step.get("container", "list")
+                arg = tuple(idx) if form == "tuple" else np.array(idx, dtype=int) if form == "array" else idx
+                r = o.real[idx if len(idx) > 1 else idx[0]] if step.get("scalar") else o.real[arg]
         except Exception as e:
             raise Violation("exception-in-subset", "object%d[%r]: %s: %r" % (step["obj"], idx, type(e).__name__, e))
         n = Obj(r, M.m_subset(o.model, idx), {"atom": [], "bond": [], "angle": [], "dihedral": [], "improper": []})
@@ -603,7 +605,11 @@ def make_machine(stats, tier, ctx):
             n = len(self.w.pool[i].model["atoms"])
             k = data.draw(hperm.integers(1, min(n, 4)))
             idx = list(data.draw(hperm.permutations(range(n))))[:k]
-            self.run({"op": "subset", "obj": i, "indices": idx})
+            # positions counted from the end (atoms[-1], atoms[[0, -2]]) and the usual index containers
+            idx = [j - n if data.draw(hperm.integers(0, 3)) == 0 else j for j in idx]
+            self.run({"op": "subset", "obj": i, "indices": idx,
+                      "container": data.draw(st.sampled_from(["list", "list", "tuple", "array"])),
+                      "scalar": len(idx) == 1 and data.draw(st.booleans())})
 
         @precondition(lambda self: not self.skip)
         @rule(data=st.data())
